@@ -152,7 +152,7 @@ class HistoryRun(object):
              "log_index": len(self.log) - 1, "fault": [k, site]}
       if any(st[0] == "doc" and st[3] == "ok" for st in (res.steps or [])):
         rec["nontrivial"] = True
-        rec["actions"] = [uas, site, k]
+        rec["nontrivial_key"] = [uas, site, k]
       self.bundles.append(rec)
       n0 = len(self.findings)
       self._o_failed(rec, before, schema_before, fault=[k, site])
